@@ -105,7 +105,8 @@ class ExecGen:
             sp = " " if ch.bool(1, 6) else ""
             return f"{ch.choice(s.arrs)}{sp}({self.iexpr(depth + 1)})"
         if k == "fun":
-            f = ch.choice(sorted(s.funs))
+            # (inside FORALL only pure functions may be referenced: the external ones have an implicit interface)
+            f = ch.choice(sorted(n for n in s.funs if not (getattr(self, "pure_only", False) and n.startswith("extfun_"))))
             self.calls.add(f)
             args = ", ".join(self.iexpr(depth + 1) for _ in range(s.funs[f]))
             sp = " " if ch.bool(1, 5) else ""
@@ -223,7 +224,11 @@ class ExecGen:
             return f"where ({a} > {self.iexpr(1)}) {a} = {self.iexpr(1)}"
         if k == "forall1" and s.arrs:
             a = ch.choice(s.arrs)
-            return f"forall (idx_fa = 1:10) {a}(idx_fa) = {self.iexpr(1)}"
+            self.pure_only = True
+            try:
+                return f"forall (idx_fa = 1:10) {a}(idx_fa) = {self.iexpr(1)}"
+            finally:
+                self.pure_only = False
         if k == "readstr" and s.strs:
             return f"read ({ch.choice(s.strs)}, *) {ch.choice(s.ints)}"
         if k == "concat" and s.strs:
@@ -338,7 +343,7 @@ class ExecGen:
                 out.append({"text": self.simple(), "label": str(l2)})
             elif k == "format":
                 self.labels += 10
-                out.append({"text": f"format (i5, {self.literal()})", "label": str(self.labels), "nobreak": True})
+                out.append({"text": f"format{ch.choice([' ', ''])}({ch.choice(['i5', '2(i5, 1x)', '3(i2, a1)'])}, {self.literal()})", "label": str(self.labels), "nobreak": True})
                 out.append(f"print {self.labels}, {self.iexpr()}")
             elif k == "semi":
                 a_, b_ = self.simple(), self.simple()
@@ -397,6 +402,11 @@ def locals_for(scope, syms, ch, tag):
             on = ch.choice(["count", "data", "result", "index", "time"])
         scope["decls"].append(_var(on, {"base": "type", "proto": "outer_t"}))
         s.objs = s.objs + [on]
+    if ch.bool(1, 3) and "typed_external" not in getattr(s, "excl", ()):
+        # a function external to the project, declared by a type declaration with the EXTERNAL attribute
+        fn = f"extfun_{tag}"
+        scope["decls"].append(dict(_var(fn, I, attrs=["external"]), no_stmt=True))
+        s.funs[fn] = 1
     aa = f"dyn_{tag}"
     d = _var(aa, I, attrs=["allocatable"])
     d["dimattr"] = "(:)"
